@@ -888,3 +888,153 @@ func RuleAT1(c *Ctx) {
 		sc.Undecided("classes", "-", "no class predicate whose kinds all have a row in the table")
 	}
 }
+
+// ---------------------------------------------------------------- RT1
+
+// RuleRT1: a kind that may stand at top level is looked for at top level. Every kind for
+// which the root-context predicate answers true has a handler in the build table or is
+// matched (by its constant) in a function of core that walks a root list of directives - a
+// list field of JApiCore - or is reached from such a walk. A kind whose only consumer looks
+// among the *children* of another directive (Tags) would be accepted at top level and then
+// silently ignored.
+func RuleRT1(c *Ctx) {
+	sc := c.Run.Begin("RT1", "every directive kind admitted at top level has a build handler or is matched by a function that walks (or is reached from a walk over) a root list of directives", 5)
+	defer sc.End()
+	pk := c.P.Pkg("core")
+	dpk := c.P.Pkg("directive")
+	enumT := c.Named("directive", "Enumeration")
+	dirT := c.Named("directive", "Directive")
+	coreT := c.Named("core", "JApiCore")
+	if pk == nil || dpk == nil || enumT == nil || dirT == nil || coreT == nil {
+		sc.Undecided("anchors", "-", "unresolved anchor: core / directive")
+		return
+	}
+	// the root-context predicate: the bool method of Enumeration that the resolver asks when
+	// the current context is nil - found as the predicate called in the resolver family on the
+	// placed directive's kind under the fact "context == nil"; by role: the method whose name
+	// the resolver calls and whose true-set contains the kinds of all build handlers of
+	// top-level blocks. Simpler and robust: every zero-argument bool method of Enumeration
+	// called from the resolver family.
+	resolver, _ := c.resolverFunc()
+	if resolver == nil {
+		sc.Undecided("anchors", "-", "unresolved anchor: the context resolver")
+		return
+	}
+	info := pk.TypesInfo
+	var preds []*types.Func
+	seenP := map[*types.Func]bool{}
+	for f := range c.familyOf(resolver) {
+		fd := c.P.Decl(f)
+		if fd == nil {
+			continue
+		}
+		ast.Inspect(fd.Body, func(n ast.Node) bool {
+			call, ok := n.(*ast.CallExpr)
+			if !ok || len(call.Args) != 0 {
+				return true
+			}
+			g := Callee(info, call)
+			if g == nil || recvNamedOf(g) != enumT || seenP[g] {
+				return true
+			}
+			sig := g.Type().(*types.Signature)
+			if sig.Results().Len() != 1 {
+				return true
+			}
+			if b, ok := sig.Results().At(0).Type().Underlying().(*types.Basic); ok && b.Kind() == types.Bool && strings.Contains(strings.ToLower(g.Name()), "root") {
+				seenP[g] = true
+				preds = append(preds, g)
+			}
+			return true
+		})
+	}
+	if len(preds) == 0 {
+		sc.Undecided("predicate", "-", "unresolved anchor: the root-context predicate asked by the resolver")
+		return
+	}
+	table := c.handlerTable()
+	// root lists: slice-of-*Directive fields of JApiCore
+	rootField := map[*types.Var]bool{}
+	if st, ok := coreT.Underlying().(*types.Struct); ok {
+		for i := 0; i < st.NumFields(); i++ {
+			if sl, ok := st.Field(i).Type().Underlying().(*types.Slice); ok {
+				if pt, ok := sl.Elem().(*types.Pointer); ok && types.Identical(pt.Elem(), dirT) {
+					rootField[st.Field(i)] = true
+				}
+			}
+		}
+	}
+	isRootList := func(e ast.Expr) bool {
+		sel, ok := ast.Unparen(e).(*ast.SelectorExpr)
+		if !ok {
+			return false
+		}
+		v, ok := info.ObjectOf(sel.Sel).(*types.Var)
+		return ok && rootField[v]
+	}
+	var roots []*types.Func
+	c.P.Funcs(func(p *pkgT, fd *ast.FuncDecl) {
+		if p != pk {
+			return
+		}
+		self, _ := info.Defs[fd.Name].(*types.Func)
+		ast.Inspect(fd.Body, func(n ast.Node) bool {
+			switch x := n.(type) {
+			case *ast.RangeStmt:
+				if isRootList(x.X) && self != nil {
+					roots = append(roots, self)
+				}
+			case *ast.IndexExpr:
+				if isRootList(x.X) && self != nil {
+					roots = append(roots, self)
+				}
+			case *ast.CallExpr:
+				for _, a := range x.Args {
+					if isRootList(a) {
+						if g := Callee(info, x); g != nil && c.P.Decl(g) != nil {
+							roots = append(roots, g)
+						}
+					}
+				}
+			}
+			return true
+		})
+	})
+	walkers := reachStatic(c.P, pk, roots)
+	mentions := map[string]bool{}
+	for _, f := range walkers {
+		fd := c.P.Decl(f)
+		ast.Inspect(fd.Body, func(n ast.Node) bool {
+			if sel, ok := n.(*ast.SelectorExpr); ok {
+				if k, ok := info.ObjectOf(sel.Sel).(*types.Const); ok && types.Identical(k.Type(), enumT) {
+					mentions[k.Name()] = true
+				}
+			}
+			return true
+		})
+	}
+	ev := &kindEval{c: c, enumT: enumT, tables: map[*types.Var]map[string]bool{}}
+	for _, pr := range preds {
+		fd := c.P.Decl(pr)
+		if fd == nil {
+			continue
+		}
+		for _, k := range EnumConsts(dpk, enumT) {
+			v := ev.evalPredFor(fd, k.Val())
+			if v == triFalse {
+				continue
+			}
+			key := pr.Name() + ":" + k.Name()
+			switch {
+			case v == triUnknown:
+				sc.Undecided(key, c.P.Pos(fd.Pos()), "the root-context predicate could not be evaluated for this kind")
+			case table[k.Name()] != nil:
+				sc.Holds(key, c.P.Pos(fd.Pos()), "has a build handler")
+			case mentions[k.Name()]:
+				sc.Holds(key, c.P.Pos(fd.Pos()), "matched by a walk over a root list of directives")
+			default:
+				sc.Violation(key, c.P.Pos(fd.Pos()), "the kind "+k.Name()+" is admitted at top level but nothing looks for it there (no build handler, and no function that walks a root list matches it): a "+k.Name()+" directive written at top level is accepted and silently ignored")
+			}
+		}
+	}
+}
